@@ -485,6 +485,40 @@ func checkC11(c *Ctx) {
 	// ---- C11.9 connection handlers range over the set of candidate registrations without a lock: it must be a copy made
 	// under the lock, never the tracking map itself (a map written during iteration aborts the process, unrecoverably)
 	checkLiveLookup(c, "C11.9", "the transports iterate it on every read of every new connection while ingest and the sweep write the same map under the lock: Go aborts the process with 'concurrent map iteration and map write', which no recover catches - first-flight bytes plus a registration for the same phantom take the station down")
+	// ---- C11.10 "never hangs": every loop on the externally reachable paths is a range loop, a counted loop, a loop that
+	// consumes an input stream / waits for an event, or is in the reviewed table
+	r.Rule("C11.10", "loops reachable from external entry points are bounded (range / counted / input-consuming) or reviewed", 20)
+	for _, f := range order {
+		for _, l := range loopsOf(f) {
+			l := l
+			classifyLoop(&l)
+			key := fmt.Sprintf("%s: loop at %s", fnName(f), loopExitConds(&l))
+			if l.class != "" {
+				r.OK("C11.10", key, l.head.Instrs[0].Pos(), l.class+": "+firstN(l.desc, 60))
+				continue
+			}
+			reviewed := false
+			for _, rv := range c11LoopTable {
+				if strings.HasSuffix(fnName(f), rv.fn) && strings.Contains(key, rv.exit) {
+					r.OK("C11.10", key+" (reviewed)", l.head.Instrs[0].Pos(), rv.reason)
+					reviewed = true
+					break
+				}
+			}
+			if !reviewed {
+				pos := token.NoPos
+				for b := range l.blocks {
+					for _, in := range b.Instrs {
+						if pos == token.NoPos && in.Pos() != token.NoPos {
+							pos = in.Pos()
+						}
+					}
+				}
+				r.Bad("C11.10", key, pos, fnName(f), "reachable from an external input entry point: this loop is not a range loop, has no counter that moves on every trip and consumes no input stream - its exits depend on values an attacker can choose (or on a draw that can keep failing), so one request can spin the handler forever", seen[f]...)
+			}
+		}
+	}
+
 	// ---- C11.5 constant-bound slicing / indexing and allocation sizes on the same reachable set
 	r.Rule("C11.5", "constant-bound slices/indexes of dynamically sized values are dominated by a length test; allocation sizes come from in-memory lengths or are bounded", 10)
 	for _, f := range order {
@@ -686,3 +720,275 @@ var c11BoundsTable = []struct{ fn, construct, reason, guardFalse string }{
 	{"dtls.dtlsCtx$1", "serverCert.Certificate[0]", "serverCert comes from certsFromSeed/newCertificate, which always builds Certificate as a one-element literal; it is not peer input (rawCerts[0] next to it is length-tested)", ""},
 	{"dtls.hbConn).recvLoop", "make(…, c.maxMessageSize)", "maxMessageSize is the local SCTP association.s configured MaxMessageSize (pion default 65536, changed only by local configuration), not a value negotiated with or sent by the peer", ""},
 }
+
+// ---------------------------------------------------------------------------
+// C11.10 loops on the externally reachable paths terminate for every input
+
+type loopInfo struct {
+	f      *ssa.Function
+	blocks map[*ssa.BasicBlock]bool
+	head   *ssa.BasicBlock
+	class  string // "" = not classified as bounded
+	desc   string
+}
+
+// loopsOf returns the natural loops of f as strongly connected components of its CFG (nested loops are reported as
+// separate components by removing the outer header and recursing).
+func loopsOf(f *ssa.Function) []loopInfo {
+	var out []loopInfo
+	var rec func(blocks []*ssa.BasicBlock, depth int)
+	rec = func(blocks []*ssa.BasicBlock, depth int) {
+		if depth > 6 {
+			return
+		}
+		in := map[*ssa.BasicBlock]bool{}
+		for _, b := range blocks {
+			in[b] = true
+		}
+		// Tarjan
+		index, low := map[*ssa.BasicBlock]int{}, map[*ssa.BasicBlock]int{}
+		on := map[*ssa.BasicBlock]bool{}
+		var stack []*ssa.BasicBlock
+		n := 0
+		var strong func(v *ssa.BasicBlock)
+		strong = func(v *ssa.BasicBlock) {
+			n++
+			index[v], low[v] = n, n
+			stack = append(stack, v)
+			on[v] = true
+			for _, w := range v.Succs {
+				if !in[w] {
+					continue
+				}
+				if index[w] == 0 {
+					strong(w)
+					if low[w] < low[v] {
+						low[v] = low[w]
+					}
+				} else if on[w] && index[w] < low[v] {
+					low[v] = index[w]
+				}
+			}
+			if low[v] == index[v] {
+				var comp []*ssa.BasicBlock
+				for {
+					w := stack[len(stack)-1]
+					stack = stack[:len(stack)-1]
+					on[w] = false
+					comp = append(comp, w)
+					if w == v {
+						break
+					}
+				}
+				self := false
+				for _, s := range v.Succs {
+					if s == v {
+						self = true
+					}
+				}
+				if len(comp) > 1 || self {
+					set := map[*ssa.BasicBlock]bool{}
+					var head *ssa.BasicBlock
+					for _, b := range comp {
+						set[b] = true
+						if head == nil || b.Index < head.Index {
+							head = b
+						}
+					}
+					out = append(out, loopInfo{f: f, blocks: set, head: head})
+					// inner loops: drop the header
+					var rest []*ssa.BasicBlock
+					for _, b := range comp {
+						if b != head {
+							rest = append(rest, b)
+						}
+					}
+					rec(rest, depth+1)
+				}
+			}
+		}
+		for _, b := range blocks {
+			if index[b] == 0 {
+				strong(b)
+			}
+		}
+	}
+	rec(f.Blocks, 0)
+	return out
+}
+
+// classifyLoop says why the loop makes progress towards an exit for every input, or "".
+func classifyLoop(l *loopInfo) {
+	// (a) range loops and (d) loops that wait for external events (channel operations, select, accept / read calls):
+	// the former are bounded by the ranged value, the latter are the service loops themselves
+	for b := range l.blocks {
+		if strings.HasPrefix(b.Comment, "rangeindex.") || strings.HasPrefix(b.Comment, "rangeiter.") || strings.HasPrefix(b.Comment, "rangeint.") || strings.HasPrefix(b.Comment, "rangefunc.") {
+			l.class, l.desc = "range", b.Comment
+			return
+		}
+	}
+	for b := range l.blocks {
+		for _, in := range b.Instrs {
+			switch x := in.(type) {
+			case *ssa.Select:
+				if x.Blocking {
+					l.class, l.desc = "event", "blocking select"
+					return
+				}
+			case *ssa.UnOp:
+				if x.Op == token.ARROW {
+					l.class, l.desc = "event", "channel receive"
+					return
+				}
+			case *ssa.Next:
+				l.class, l.desc = "range", "iterator"
+				return
+			case *ssa.Call:
+				m := ""
+				if x.Call.IsInvoke() {
+					m = x.Call.Method.Name()
+				} else if sc := x.Call.StaticCallee(); sc != nil {
+					m = sc.Name()
+				}
+				switch m {
+				case "Read", "ReadFull", "ReadFrom", "ReadFromUDP", "ReadMsgUDP", "Accept", "AcceptTCP", "Recv", "RecvBytes", "RecvMessage", "ReadByte", "ReadString", "ReadBytes", "Scan", "Wait", "Sleep", "ReadAtLeast", "Next", "ReadLine", "ReadRune", "Decode", "Seek":
+					// the loop consumes an input stream (or the clock): it ends when the stream does
+					l.class, l.desc = "input", m
+					return
+				}
+			}
+		}
+	}
+	// (b) counted loops: an exit condition compares a value that moves by a constant on every trip round the loop
+	for b := range l.blocks {
+		iff, ok := b.Instrs[len(b.Instrs)-1].(*ssa.If)
+		if !ok {
+			continue
+		}
+		exits := false
+		for _, s := range b.Succs {
+			if !l.blocks[s] {
+				exits = true
+			}
+		}
+		if !exits {
+			continue
+		}
+		if bo, ok := iff.Cond.(*ssa.BinOp); ok {
+			for _, side := range []ssa.Value{bo.X, bo.Y} {
+				if isLoopCounter(l, side, 0) {
+					l.class, l.desc = "counted", bo.String()
+					return
+				}
+			}
+		}
+	}
+}
+
+// isLoopCounter: v is a phi of the loop (or a conversion / length of one) one of whose incoming values from inside the
+// loop is that phi plus or minus a constant, or a re-slice x[k:] of that phi (consumption), or len() of such a phi.
+func isLoopCounter(l *loopInfo, v ssa.Value, depth int) bool {
+	if depth > 4 {
+		return false
+	}
+	switch x := v.(type) {
+	case *ssa.Convert:
+		return isLoopCounter(l, x.X, depth+1)
+	case *ssa.ChangeType:
+		return isLoopCounter(l, x.X, depth+1)
+	case *ssa.Call:
+		if bi, ok := x.Call.Value.(*ssa.Builtin); ok && bi.Name() == "len" && len(x.Call.Args) == 1 {
+			return isLoopCounter(l, x.Call.Args[0], depth+1)
+		}
+		// buf.Len() of a buffer consumed in the loop is not tracked
+	case *ssa.BinOp:
+		if x.Op == token.ADD || x.Op == token.SUB {
+			if _, isC := x.Y.(*ssa.Const); isC {
+				return isLoopCounter(l, x.X, depth+1)
+			}
+		}
+	case *ssa.UnOp:
+		// a local variable (not lifted to a register) that the loop increments
+		if a, ok := x.X.(*ssa.Alloc); ok && x.Op == token.MUL && a.Referrers() != nil {
+			for _, ref := range *a.Referrers() {
+				st, ok := ref.(*ssa.Store)
+				if !ok || st.Addr != ssa.Value(a) || !l.blocks[st.Block()] {
+					continue
+				}
+				if bo, ok := st.Val.(*ssa.BinOp); ok && (bo.Op == token.ADD || bo.Op == token.SUB) {
+					if _, isC := bo.Y.(*ssa.Const); isC {
+						if ld, ok := bo.X.(*ssa.UnOp); ok && ld.X == ssa.Value(a) {
+							return true
+						}
+					}
+				}
+			}
+		}
+	case *ssa.Phi:
+		if !l.blocks[x.Block()] {
+			return false
+		}
+		for i, e := range x.Edges {
+			if i >= len(x.Block().Preds) || !l.blocks[x.Block().Preds[i]] {
+				continue
+			}
+			switch y := e.(type) {
+			case *ssa.BinOp:
+				if y.Op == token.ADD || y.Op == token.SUB {
+					_, cy := y.Y.(*ssa.Const)
+					_, cx := y.X.(*ssa.Const)
+					if (cy && stripConvAll(y.X) == ssa.Value(x)) || (cx && stripConvAll(y.Y) == ssa.Value(x)) {
+						return true
+					}
+					// i += n with n > 0 is not proven here
+				}
+			case *ssa.Slice:
+				if y.X == ssa.Value(x) && y.Low != nil {
+					return true
+				}
+			}
+		}
+	}
+	return false
+}
+
+func stripConvAll(v ssa.Value) ssa.Value {
+	for {
+		switch x := v.(type) {
+		case *ssa.Convert:
+			v = x.X
+		case *ssa.ChangeType:
+			v = x.X
+		default:
+			return v
+		}
+	}
+}
+
+// loopExitConds renders the exit conditions of a loop (sorted), the stable part of its key.
+func loopExitConds(l *loopInfo) string {
+	var cs []string
+	for b := range l.blocks {
+		iff, ok := b.Instrs[len(b.Instrs)-1].(*ssa.If)
+		if !ok {
+			continue
+		}
+		for _, s := range b.Succs {
+			if !l.blocks[s] {
+				cnd, _ := normCond(iff.Cond)
+				cs = append(cs, firstN(cnd, 70))
+				break
+			}
+		}
+	}
+	sort.Strings(cs)
+	cs = uniq(cs)
+	if len(cs) > 3 {
+		cs = cs[:3]
+	}
+	return "[" + strings.Join(cs, "; ") + "]"
+}
+
+// c11LoopTable: loops on the externally reachable paths that the classifier does not recognise, each read and found
+// to terminate for every input.
+var c11LoopTable = []struct{ fn, exit, reason string }{}
